@@ -59,6 +59,15 @@ def parseContent (s : String) : ByteArray :=
         out := out.push 0
       return out
   | ["h", hx] => ba (unhex hx)
+  | ["t", seed, len, k] =>
+    -- as "g", with the last k bytes inverted
+    let b := genContent seed.toNat! len.toNat!
+    let n := b.size
+    Id.run do
+      let mut out := b
+      for j in [n - k.toNat!:n] do
+        out := out.set! j (out.get! j ^^^ 0xFF)
+      return out
   | [kind, seed, len, total] =>
     -- "sp" / "sd": `len` bytes as in "g", then zeros up to `total` (a hole in the real file, or written out: the same bytes)
     if kind == "sp" || kind == "sd" then
